@@ -1,7 +1,7 @@
 """Leaf models for folding core/ code with ModelEval: Arrays, raw buffers, numbers-like operands."""
 from __future__ import annotations
 
-from ..models import ModelEval, PyObj, Raised
+from ..models import Marker, ModelEval, PyObj, Raised
 from ..peval import Model, Unsupported
 
 ARRAY_Q = "core/array.py::Array"
@@ -34,6 +34,13 @@ class RawTok(Model):
 
     def copy(self):
         return RawTok(("copy", self.origin), self.shape, getattr(self, "dtype", None))
+
+    def item(self, *a):
+        """ndarray.item(): a PYTHON scalar (numpy treats it as a weak operand: float32 data stay float32), not the buffer"""
+        return Marker("pyscalar", self.origin)
+
+    def tolist(self):
+        return Marker("pyscalar", self.origin)
 
     def astype(self, dtype, *a, **k):
         return RawTok(("astype", self.origin, repr(dtype)), self.shape, dtype)
